@@ -1,12 +1,94 @@
 /-
-  Props.C18 — the theorems that decide property C18 (see DESIGN.md §7).
+  Props.C18 — Go structs, pointers and typed slices navigate like their JSON
+  form (DESIGN.md §7, C18).
+
+  `Jmes/Typed.lean` models the reflection paths of interpreter.go / util.go
+  (`fieldFromStruct`, `interfaceOf`, the `…WithReflection` loops, `isFalse`'s
+  reflection cases) as `evalT` on typed values `TVal`; `view` is a document's
+  JSON form.  The theorem: for every navigational expression (field access,
+  indexing, slicing, flattening, list and filter projections, multi-select,
+  `||`, `&&`, `!`, pipes, literals — nested without bound) and every well-formed
+  typed document, evaluation on the typed document and evaluation on its JSON
+  form succeed or fail together and the results have the same JSON form; nil
+  pointers are null.  Field names are those `cap` (the capitalisation of
+  `fieldFromStruct`) leaves alone; `C18_struct_lookup_capitalises` says the
+  other spellings of a name reach the same field.
+
+  Decided on the implementation only (not modelled): that no built-in function
+  panics on typed slices (`typedCall` stream), comparators on typed values.
 -/
 import Props.Tables
+import Proofs.Typed
 namespace Jmes.Props
-open Jmes
+open Jmes Jmes.Typed Jmes.Interp
 
 theorem C18_generated_table_ok : TableOK Generated.table = true := generated_table_ok
 theorem C18_generated_sigs_ok : SigsOK Generated.functionTable Spec.functionTable = true := generated_sigs_ok
 theorem C18_generated_lex_ok : LexTablesOK Model.lexTables Spec.lexTables = true := generated_lex_ok
+
+variable {N : Type} [NumOps N]
+
+/-- **Typed = generic.**  Same outcome (value, error or — never — panic), and
+    the typed result's JSON form is the generic result. -/
+theorem C18_typed_equals_generic (cap : Bytes → Bytes) (ft : List FnEntry) (e : Node N) (hnav : Nav cap e = true)
+    (d : TVal N) (hd : Top d) :
+    (match evalT cap e d with
+     | .ok r => eval ft e (view d) = .ok (view r)
+     | .err x => eval ft e (view d) = .err x
+     | .panic s => eval ft e (view d) = .panic s) := by
+  have h := evalT_rel cap ft e hnav d hd
+  cases ht : evalT cap e d with
+  | ok r =>
+    rw [ht] at h
+    cases hv : eval ft e (view d) with
+    | ok v => rw [hv] at h; simp only; rw [h.1]
+    | err x => rw [hv] at h; exact h.elim
+    | panic s => rw [hv] at h; exact h.elim
+  | err x =>
+    rw [ht] at h
+    cases hv : eval ft e (view d) with
+    | ok v => rw [hv] at h; exact h.elim
+    | err y => rw [hv] at h; simp only; rw [h]
+    | panic s => rw [hv] at h; exact h.elim
+  | panic s =>
+    rw [ht] at h
+    cases hv : eval ft e (view d) with
+    | ok v => rw [hv] at h; exact h.elim
+    | err y => rw [hv] at h; exact h.elim
+    | panic s' => rw [hv] at h; simp only; rw [h]
+
+/-- The result of a navigation never is a typed nil pointer and stays well formed. -/
+theorem C18_results_are_well_formed (cap : Bytes → Bytes) (ft : List FnEntry) (e : Node N) (hnav : Nav cap e = true)
+    (d : TVal N) (hd : Top d) (r : TVal N) (hr : evalT cap e d = .ok r) : Top r := by
+  have h := evalT_rel cap ft e hnav d hd
+  rw [hr] at h
+  cases hv : eval ft e (view d) with
+  | ok v => rw [hv] at h; exact h.2
+  | err x => rw [hv] at h; exact h.elim
+  | panic s => rw [hv] at h; exact h.elim
+
+/-- `fieldFromStruct` matches a name after capitalising it: a key and its
+    capitalised spelling reach the same struct field (`cap` idempotent). -/
+theorem C18_struct_lookup_capitalises (cap : Bytes → Bytes) (hidem : ∀ k, cap (cap k) = cap k) (k : Bytes)
+    (fs : List (Bytes × TVal N)) :
+    fieldT cap k (.struct fs) = fieldT cap (cap k) (.struct fs) ∧
+    fieldT cap k (.ptr (.struct fs)) = fieldT cap (cap k) (.ptr (.struct fs)) := by
+  simp [fieldT, hidem]
+
+/-- A nil pointer behaves as null: as a struct field, as a slice element, and as a document. -/
+theorem C18_nil_pointer_is_null (cap : Bytes → Bytes) (k : Bytes) (rest : List (Bytes × TVal N)) (xs : List (TVal N)) :
+    fieldT cap k (.struct ((cap k, .nilptr) :: rest)) = (.null : TVal N) ∧
+    indexT 0 (.slice (.nilptr :: xs)) = (.null : TVal N) ∧
+    fieldT cap k (.nilptr : TVal N) = .null ∧ isFalseT (.nilptr : TVal N) = true := by
+  refine ⟨?_, ?_, rfl, rfl⟩
+  · simp [fieldT, fieldOfStruct, lookupT, interfaceOf]
+  · simp [indexT, interfaceOf]
+
+/-- the hypotheses are satisfiable by a document with every typed shape
+    (fields `A`: a slice of pointers with a nil one, `B`: a nil pointer, `C`: a slice of strings) -/
+example : Top (.struct [([0x41], .slice [.ptr (.struct [([0x49], (.num 1 : TVal Int))]), .nilptr]),
+    ([0x42], .nilptr), ([0x43], .slice [.str [0x74]])] : TVal Int) := by
+  refine ⟨rfl, by decide, by decide, ?_⟩
+  simp [WFTFields, WFT, WFTSlice, isStruct]
 
 end Jmes.Props
